@@ -117,3 +117,263 @@ def t_str_nul(facts, res, tier):
     res.inst("T-STR-NUL:decoder-callers", True, callers)
     if "parse_int" not in callers:
         res.fail("T-STR-NUL:decoder-callers", facts.where(facts.fn("parse_int", "")), "character constants do not go through the string escape decoder")
+
+
+# ----------------------------------------------------------------------------- C10
+import re
+from astlib import children
+
+
+def closure_arg(fn, method):
+    """The closure passed to `.map_infix(..)` etc. inside fn."""
+    for n in walk(fn["body"]):
+        if n.get("k") == "mcall" and n["method"] == method and n["args"] and n["args"][0].get("k") == "closure":
+            return n["args"][0]
+    return None
+
+
+def rule_arms(closure):
+    """Rule::x -> arm body for the `match op.as_rule()` inside a Pratt callback."""
+    for m in walk(closure["body"]):
+        if m.get("k") == "match" and expr_text(m["e"]).endswith(".as_rule()"):
+            out = {}
+            for arm in m["arms"]:
+                pats = arm["pat"]["alts"] if arm["pat"].get("k") == "or" else [arm["pat"]]
+                for p in pats:
+                    if p.get("k") == "path" and len(p["segs"]) >= 2 and p["segs"][-2] == "Rule":
+                        out[p["segs"][-1]] = arm["body"]
+            return m, out
+    return None, {}
+
+
+def normalise_calc(body):
+    """Canonical text of a calculator arm: L/R for the operands, aliases inlined, error guards dropped."""
+    aliases = {}
+    expr = body
+    guards = []
+    if body.get("k") == "block":
+        stmts = body["stmts"]
+        for s in stmts[:-1]:
+            if s.get("k") == "let" and s["pat"].get("k") == "ident" and "init" in s:
+                aliases[s["pat"]["name"]] = expr_text(s["init"])
+            elif s.get("k") == "if" and "return" in expr_text(s["then"]):
+                guards.append(expr_text(s["cond"]))
+            elif s.get("k") == "macro" and s["name"] in ("debug", "trace", "info"):
+                continue
+            else:
+                return None, guards
+        expr = stmts[-1] if stmts else body
+    t = expr_text(expr)
+    def sub(t):
+        t = re.sub(r"\blhs\.unwrap\(\)|\blhs\?", "L", t)
+        t = re.sub(r"\brhs\.unwrap\(\)|\brhs\?", "R", t)
+        return t
+    t = sub(t)
+    for a, v in aliases.items():
+        t = re.sub(r"\b%s\b" % re.escape(a), sub(v), t)
+    guards = [re.sub(r"\b%s\b" % re.escape(a), sub(v), g) for g in guards for a, v in (aliases.items() or [("", "")])] if aliases else [sub(g) for g in guards]
+    m = re.match(r"^Ok\((.*)\)$", t)
+    if m:
+        t = m.group(1)
+    return t, guards
+
+
+def bool01(c):
+    return {"if %s{1} else {0}" % c, c, "i32::from(%s)" % c}
+
+
+CALC_INFIX = {
+    "mul": {"(L*R)"}, "add": {"(L+R)"}, "sub": {"(L-R)"}, "and": {"(L&R)"}, "or": {"(L|R)"}, "xor": {"(L^R)"},
+    "brs": {"(L>>R)"}, "bls": {"(L<<R)"}, "div": {"(L/R)"},
+    "land": bool01("((L!=0)&&(R!=0))"), "lor": bool01("((L!=0)||(R!=0))"),
+    "gt": bool01("(L>R)"), "gte": bool01("(L>=R)"), "lt": bool01("(L<R)"), "lte": bool01("(L<=R)"),
+    "eq": bool01("(L==R)"), "neq": bool01("(L!=R)"),
+}
+CALC_PREFIX = {"neg": {"-R"}, "bnot": {"!R"}, "not": bool01("(R==0)")}
+
+
+@rule("T-CALC-OPS", floor=18,
+      text="each operator arm of the constant calculator (parse_calc) computes the C operator it is registered for: arithmetic/bitwise/shift arms are the corresponding Rust operator on (lhs, rhs), comparison and logical arms yield 1/0, `!` is logical negation (x == 0), `~` bitwise not, unary `-` negation, and `/` is guarded by a zero test that returns an error")
+def t_calc_ops(facts, res, tier):
+    fn = facts.fn("parse_calc", "CompilerState")
+    inf = closure_arg(fn, "map_infix")
+    pre = closure_arg(fn, "map_prefix")
+    if inf is None or pre is None:
+        raise AnchorMissing("parse_calc: map_infix/map_prefix closures not found")
+    m, arms = rule_arms(inf)
+    for op, accepted in sorted(CALC_INFIX.items()):
+        key = "T-CALC-OPS:infix:%s" % op
+        if op not in arms:
+            res.inst(key)
+            res.fail(key, facts.where(fn, m or inf), "calculator has no arm for `%s`" % op)
+            continue
+        t, guards = normalise_calc(arms[op])
+        res.inst(key, True, {"op": op, "computes": t, "guards": guards})
+        if t is None or t not in accepted:
+            res.fail(key, facts.where(fn, arms[op]), "calculator arm for `%s` computes `%s`; expected %s" % (op, t, " or ".join(sorted(accepted))))
+        if op == "div" and not any(g.replace("(", "").replace(")", "") in ("R==0", "0==R") for g in guards):
+            res.fail(key + ":zero-guard", facts.where(fn, arms[op]), "division in the calculator is not guarded by a zero test that returns an error")
+    m2, parms = rule_arms(pre)
+    for op, accepted in sorted(CALC_PREFIX.items()):
+        key = "T-CALC-OPS:prefix:%s" % op
+        if op not in parms:
+            res.inst(key)
+            res.fail(key, facts.where(fn, m2 or pre), "calculator has no prefix arm for `%s`" % op)
+            continue
+        t, guards = normalise_calc(parms[op])
+        res.inst(key, True, {"op": op, "computes": t})
+        if t is None or t not in accepted:
+            res.fail(key, facts.where(fn, parms[op]), "calculator prefix `%s` computes `%s`; C semantics: %s" % (op, t, " or ".join(sorted(accepted))))
+    for extra in sorted(set(arms) - set(CALC_INFIX) - {"ternary_cond1", "ternary_cond2"}):
+        key = "T-CALC-OPS:infix:%s" % extra
+        res.inst(key)
+        res.fail(key, facts.where(fn, arms[extra]), "calculator arm `%s` is not a C binary operator the checker knows" % extra)
+    res.exhaustive = True
+
+
+FOLD_OPS = {"Add": "+", "Sub": "-", "And": "&", "Or": "|", "Xor": "^", "Mul": "*", "Div": "/", "Brs": ">>", "Bls": "<<",
+            "Eq": "==", "Neq": "!=", "Gt": ">", "Gte": ">=", "Lt": "<", "Lte": "<="}
+
+
+@rule("T-FOLD", floor=15,
+      text="every constant-folding arm in the generator (generate_arithm and generate_shift on two immediates, generate_neg/not/bnot on a literal, the immediate_special table of generate_condition) applies the operator of the Operation it is the arm for")
+def t_fold(facts, res, tier):
+    n = 0
+    for fname in ("generate_arithm", "generate_shift", "generate_condition"):
+        fn = facts.fn(fname, "GeneratorState")
+        for m in walk(fn["body"]):
+            if m.get("k") != "match":
+                continue
+            for arm in m["arms"]:
+                p = arm["pat"]
+                if p.get("k") not in ("tstruct", "path") or len(p["segs"]) < 2 or p["segs"][-2] != "Operation":
+                    continue
+                opn = p["segs"][-1]
+                if opn not in FOLD_OPS:
+                    continue
+                bt = expr_text(arm["body"])
+                mm = re.search(r"ExprType::Immediate\(\((\w+)(\W{1,2})(\w+)\)\)", bt)
+                kind = "value"
+                if not mm:
+                    mm = re.search(r"Some\(if \((\w+)(\W{1,2})(\w+)\)\{!(\w+)\} else \{(\w+)\}\)", bt)
+                    kind = "cond"
+                if not mm:
+                    continue
+                n += 1
+                a, op, b = mm.group(1), mm.group(2), mm.group(3)
+                key = "T-FOLD:%s:%s" % (fname, opn)
+                res.inst(key, True, {"function": fname, "operation": opn, "folds_as": "%s %s %s" % (a, op, b)})
+                if op != FOLD_OPS[opn]:
+                    res.fail(key, facts.where(fn, arm["body"]), "%s folds Operation::%s on two constants as `%s %s %s`" % (fname, opn, a, op, b))
+                if a == b:
+                    res.fail(key, facts.where(fn, arm["body"]), "%s folds Operation::%s using the same operand twice" % (fname, opn))
+                if kind == "cond" and mm.group(4) != mm.group(5):
+                    res.fail(key, facts.where(fn, arm["body"]), "%s: folded comparison does not return `!negate` / `negate` consistently" % fname)
+    # unary literal folds
+    for fname, want in (("generate_neg", "-i"), ("generate_bnot", "!i")):
+        fn = facts.fn(fname, "GeneratorState")
+        key = "T-FOLD:%s" % fname
+        got = None
+        for m in walk(fn["body"]):
+            if m.get("k") == "match":
+                for arm in m["arms"]:
+                    if pat_text(arm["pat"]).startswith("Expr::Integer("):
+                        var = pat_text(arm["pat"])[len("Expr::Integer("):-1]
+                        mm = re.search(r"ExprType::Immediate\((.*?)\)\)?$", expr_text(arm["body"]))
+                        if mm:
+                            got = mm.group(1).replace(var, "i")
+        res.inst(key, True, {"folds_as": got})
+        if got != want:
+            res.fail(key, facts.where(fn), "%s folds a literal as `%s`, expected `%s`" % (fname, got, want))
+    fn = facts.fn("generate_not", "GeneratorState")
+    key = "T-FOLD:generate_not"
+    t = expr_text(fn["body"])
+    res.inst(key)
+    if not re.search(r"if \((\w+)!=0\)\{Ok\(ExprType::Immediate\(0\)\)\} else \{Ok\(ExprType::Immediate\(1\)\)\}", t):
+        res.fail(key, facts.where(fn), "generate_not does not fold !literal to 0/1")
+    res.note("%d binary folding arms" % n)
+
+
+@rule("T-DIV-GUARD", floor=2,
+      text="every integer division or remainder in non-test code whose divisor is not a non-zero literal is preceded, in an enclosing block, by a zero test of that divisor that leaves the function")
+def t_div_guard(facts, res, tier):
+    for fn in facts.fns:
+        # parent chain of blocks
+        def visit(node, blocks):
+            k = node.get("k")
+            if k in ("binary", "assignop") and node["op"] in ("/", "%"):
+                d = node["r"]
+                dt = expr_text(d)
+                key = "T-DIV-GUARD:%s:%s" % (fn["name"], expr_text(node))
+                if d.get("k") == "lit" and d["ty"] == "int":
+                    res.inst(key, False, {"divisor": dt})
+                    if d["v"] == 0:
+                        res.fail(key, facts.where(fn, node), "division by literal zero")
+                else:
+                    guarded = False
+                    for blk, idx in blocks:
+                        for s in blk["stmts"][:idx]:
+                            if s.get("k") == "if":
+                                c = expr_text(s["cond"]).replace("(", "").replace(")", "")
+                                if c in ("%s==0" % dt, "0==%s" % dt) and "return" in expr_text(s["then"]):
+                                    guarded = True
+                    res.inst(key, True, {"divisor": dt, "guarded": guarded})
+                    if not guarded:
+                        res.fail(key, facts.where(fn, node), "`%s` in %s: the divisor `%s` is not tested against zero before the division (a constant zero divisor panics instead of producing an error)" % (expr_text(node), fn["name"], dt))
+            if k == "block":
+                for i, s in enumerate(node["stmts"]):
+                    visit(s, blocks + [(node, i)])
+                return
+            for c in children(node):
+                visit(c, blocks)
+        visit(fn["body"], [])
+
+
+def strip_imm(t):
+    t = re.sub(r"ExprType::Immediate\((.*)\)$", r"\1", t)
+    return t
+
+
+@rule("T-SIZEOF", floor=6,
+      text="the constant calculator's sizeof (parse_sizeof) and the generator's sizeof (generate_sizeof) agree case by case: the same type-name tests in the same order with the same sizes, and the same size per variable type")
+def t_sizeof(facts, res, tier):
+    a = facts.fn("parse_sizeof", "CompilerState")
+    b = facts.fn("generate_sizeof", "GeneratorState")
+    def type_chain(fn):
+        # if s.contains("*") {..} else if s == "char" {..} ...
+        out = []
+        for n in walk(fn["body"]):
+            if n.get("k") == "if" and 'contains("*")' in expr_text(n["cond"]):
+                cur = n
+                while cur is not None and cur.get("k") == "if":
+                    val = expr_text(cur["then"]["stmts"][-1]) if cur["then"]["stmts"] else ""
+                    mm = re.match(r"^Ok\((.*)\)$", val)
+                    out.append((expr_text(cur["cond"]), strip_imm(mm.group(1)) if mm else val))
+                    cur = cur.get("else")
+                    if cur is not None and cur.get("k") == "block" and len(cur["stmts"]) == 1 and cur["stmts"][0].get("k") == "if":
+                        cur = cur["stmts"][0]
+                break
+        return out
+    ca, cb = type_chain(a), type_chain(b)
+    res.inst("T-SIZEOF:type-names", True, {"parse_sizeof": ca, "generate_sizeof": cb})
+    if not ca or ca != cb:
+        res.fail("T-SIZEOF:type-names", facts.where(a), "sizeof(type) is decided differently at compile time and in statements: %s vs %s" % (ca, cb))
+    def var_table(fn):
+        out = {}
+        for m in walk(fn["body"]):
+            if m.get("k") == "match" and expr_text(m["e"]).endswith(".var_type"):
+                for arm in m["arms"]:
+                    pats = arm["pat"]["alts"] if arm["pat"].get("k") == "or" else [arm["pat"]]
+                    t = expr_text(arm["body"])
+                    t = re.sub(r"Ok\(ExprType::Immediate\((.*?)\)\)", r"Ok(\1)", t)
+                    t = re.sub(r"\b\w+\.(size|var_const)\b", r"v.\1", t)
+                    for p in pats:
+                        if p.get("k") == "path":
+                            out[p["segs"][-1]] = t
+        return out
+    ta, tb = var_table(a), var_table(b)
+    for vt in facts.enum_variants("VariableType"):
+        key = "T-SIZEOF:var:%s" % vt
+        res.inst(key, True, {"parse_sizeof": ta.get(vt), "generate_sizeof": tb.get(vt)})
+        if vt not in ta or ta.get(vt) != tb.get(vt):
+            res.fail(key, facts.where(a), "sizeof of a %s variable: calculator gives `%s`, generator gives `%s`" % (vt, ta.get(vt), tb.get(vt)))
